@@ -269,11 +269,27 @@ pub struct Iter<'a, K, V> {
 impl<'a, K, V> Iterator for Iter<'a, K, V> {
     type Item = (&'a K, &'a V);
 
+    /// Loop-free (one case per slot, in slot order): the position is symbolic as soon as two paths
+    /// with different positions merge, a `while self.pos < CAP` loop is then unrolled to the global
+    /// unwind bound inside every iteration of the caller's `for` loop (measured: every lemma that
+    /// reaches `remove_service` ran out of memory).
     fn next(&mut self) -> Option<Self::Item> {
-        while self.pos < CAP {
-            let i = self.pos;
-            self.pos += 1;
-            if let Some((k, v)) = &self.map.slots[i] {
+        if self.pos == 0 {
+            self.pos = 1;
+            if let Some((k, v)) = &self.map.slots[0] {
+                return Some((k, v));
+            }
+        }
+        if self.pos == 1 {
+            self.pos = 2;
+            if let Some((k, v)) = &self.map.slots[1] {
+                return Some((k, v));
+            }
+        }
+        #[cfg(not(verif_cap = "2"))]
+        if self.pos == 2 {
+            self.pos = 3;
+            if let Some((k, v)) = &self.map.slots[2] {
                 return Some((k, v));
             }
         }
@@ -441,10 +457,22 @@ impl<'a, T> Iterator for SetIter<'a, T> {
     type Item = &'a T;
 
     fn next(&mut self) -> Option<&'a T> {
-        while self.pos < CAP {
-            let i = self.pos;
-            self.pos += 1;
-            if let Some(v) = &self.set.slots[i] {
+        if self.pos == 0 {
+            self.pos = 1;
+            if let Some(v) = &self.set.slots[0] {
+                return Some(v);
+            }
+        }
+        if self.pos == 1 {
+            self.pos = 2;
+            if let Some(v) = &self.set.slots[1] {
+                return Some(v);
+            }
+        }
+        #[cfg(not(verif_cap = "2"))]
+        if self.pos == 2 {
+            self.pos = 3;
+            if let Some(v) = &self.set.slots[2] {
                 return Some(v);
             }
         }
@@ -470,10 +498,22 @@ impl<T> Iterator for SetIntoIter<T> {
     type Item = T;
 
     fn next(&mut self) -> Option<T> {
-        while self.pos < CAP {
-            let i = self.pos;
-            self.pos += 1;
-            if let Some(v) = self.slots[i].take() {
+        if self.pos == 0 {
+            self.pos = 1;
+            if let Some(v) = self.slots[0].take() {
+                return Some(v);
+            }
+        }
+        if self.pos == 1 {
+            self.pos = 2;
+            if let Some(v) = self.slots[1].take() {
+                return Some(v);
+            }
+        }
+        #[cfg(not(verif_cap = "2"))]
+        if self.pos == 2 {
+            self.pos = 3;
+            if let Some(v) = self.slots[2].take() {
                 return Some(v);
             }
         }
